@@ -100,6 +100,13 @@ bcls("httpx.RequestError", "httpx.HTTPError")
 bcls("httpx.TransportError", "httpx.RequestError")
 bcls("httpx.TimeoutException", "httpx.TransportError")
 bcls("httpx.HTTPStatusError", "httpx.HTTPError")
+for _n, _p in [("ConnectTimeout", "TimeoutException"), ("ReadTimeout", "TimeoutException"), ("WriteTimeout", "TimeoutException"),
+               ("PoolTimeout", "TimeoutException"), ("NetworkError", "TransportError"), ("ConnectError", "NetworkError"),
+               ("ReadError", "NetworkError"), ("WriteError", "NetworkError"), ("CloseError", "NetworkError"),
+               ("ProtocolError", "TransportError"), ("LocalProtocolError", "ProtocolError"), ("RemoteProtocolError", "ProtocolError"),
+               ("ProxyError", "TransportError"), ("UnsupportedProtocol", "TransportError"), ("DecodingError", "RequestError"),
+               ("TooManyRedirects", "RequestError")]:
+    bcls("httpx." + _n, "httpx." + _p)
 bcls("enum.IntEnum", "builtins.object")
 bcls("asyncio.Protocol", "builtins.object")
 bcls("asyncio.DatagramProtocol", "builtins.object")
